@@ -371,6 +371,16 @@ func validObject(r *wk.Rand, s *Shape, env *Env, depth int) (any, bool) {
 				ok = false
 				break
 			}
+			if p.EmptyDef && isEmptyRaw(v) {
+				// an explicitly supplied empty value of a treat-empty-as-default property is "set" for
+				// Unserialize but "absent" for Validate/Serialize by documentation; such inputs have no
+				// single reading under presence rules, so the property is left out instead
+				if p.Required || !PresenceOK(s, without(set, p.Name)) {
+					ok = false
+					break
+				}
+				continue
+			}
 			obj[p.Name] = v
 		}
 		if ok {
@@ -969,3 +979,197 @@ func CopyRaw(v any) any {
 }
 
 var _ = strings.TrimSpace
+
+// InsertOddKey picks a random map node of a raw tree, turns it into a map[any]any and adds an entry
+// with a key decoders can produce but schemas mostly do not expect (NaN, integers, bools, nil-ish).
+// Returns ok=false if the tree has no map node.
+func InsertOddKey(r *wk.Rand, v any) (any, string, bool) {
+	type node struct {
+		path string
+		set  func(any)
+		m    any
+	}
+	var nodes []node
+	var walk func(cur any, path string, set func(any))
+	walk = func(cur any, path string, set func(any)) {
+		switch x := cur.(type) {
+		case []any:
+			for i := range x {
+				i := i
+				walk(x[i], fmt.Sprintf("%s[%d]", path, i), func(n any) { x[i] = n })
+			}
+		case map[string]any:
+			nodes = append(nodes, node{path, set, x})
+			for k, val := range x {
+				k := k
+				walk(val, path+"."+k, func(n any) { x[k] = n })
+			}
+		case map[any]any:
+			nodes = append(nodes, node{path, set, x})
+			for k, val := range x {
+				k := k
+				walk(val, fmt.Sprintf("%s{%v}", path, k), func(n any) { x[k] = n })
+			}
+		}
+	}
+	root := v
+	walk(v, "$", func(n any) { root = n })
+	if len(nodes) == 0 {
+		return v, "", false
+	}
+	n := wk.Pick(r, nodes)
+	out := map[any]any{}
+	switch m := n.m.(type) {
+	case map[string]any:
+		for k, val := range m {
+			out[k] = val
+		}
+	case map[any]any:
+		for k, val := range m {
+			out[k] = val
+		}
+	}
+	keys := []any{math.NaN(), int64(7), uint64(3), true, 1.5, [1]int{1}, float32(2), int8(1), namedString("nk")}
+	k := wk.Pick(r, keys)
+	out[k] = wk.Pick(r, []any{int64(1), "v", nil, map[string]any{}})
+	n.set(out)
+	return root, fmt.Sprintf("%s + key %T", n.path, k), true
+}
+
+var perturbStrings = []string{"é", "héllo", "日", "日本語", "üñ", "ab", "", "a", "abcdef", "ÿÿÿ", "a ", " ", "\t", "0", "-1", "١٢", "1e3", "0x10", "1_000", "+5", " 5", "5 ", "NaN", "inf", "TRUE", "Yes", "nope"}
+
+// Perturb replaces one leaf of a valid raw tree with a plausible value of a similar kind that sits near
+// a boundary of some constraint (multi-byte strings, off-by-one numbers, extreme floats, blank strings).
+// Whether the schema still accepts the result is for the schema to say.
+func Perturb(r *wk.Rand, v any) (any, string) {
+	type leaf struct {
+		path string
+		set  func(any)
+		val  any
+	}
+	var leaves []leaf
+	var walk func(cur any, path string, set func(any))
+	walk = func(cur any, path string, set func(any)) {
+		switch x := cur.(type) {
+		case []any:
+			for i := range x {
+				i := i
+				walk(x[i], fmt.Sprintf("%s[%d]", path, i), func(n any) { x[i] = n })
+			}
+		case map[string]any:
+			for k, val := range x {
+				k := k
+				walk(val, path+"."+k, func(n any) { x[k] = n })
+			}
+		case map[any]any:
+			for k, val := range x {
+				k := k
+				walk(val, fmt.Sprintf("%s{%v}", path, k), func(n any) { x[k] = n })
+			}
+		default:
+			leaves = append(leaves, leaf{path, set, cur})
+		}
+	}
+	root := v
+	walk(v, "$", func(n any) { root = n })
+	if len(leaves) == 0 {
+		return v, ""
+	}
+	l := wk.Pick(r, leaves)
+	var nv any
+	switch x := l.val.(type) {
+	case int64:
+		nv = wk.Pick(r, []any{x + 1, x - 1, int64(0), -x, float64(x) + 0.5, math.Inf(1), 1e19, uint64(math.MaxUint64), fmt.Sprint(x) + " ", " ", "\t", fmt.Sprintf("%d.0", x), float32(x)})
+	case float64:
+		nv = wk.Pick(r, []any{math.Nextafter(x, math.Inf(1)), math.Nextafter(x, math.Inf(-1)), math.NaN(), math.Inf(-1), math.Copysign(0, -1), x * 2, " ", "1e400", float32(x)})
+	case string:
+		nv = wk.Pick(r, perturbStrings)
+		if r.Chance(30) {
+			nv = x + wk.Pick(r, []string{"é", "日", "x", " "})
+		}
+	case bool:
+		nv = wk.Pick(r, []any{"TRUE", "nope", int64(2), int64(1), 1.0, "Y", ""})
+	default:
+		nv = wk.Pick(r, []any{nil, "", int64(0)})
+	}
+	l.set(nv)
+	return root, l.path
+}
+
+// TrickyShapes are hand-written scopes whose reference structure needs something specific: self
+// references, rho-shaped and mutually recursive chains of single-property objects, cycles that pass
+// through inline objects, lists, maps, one-ofs and nested scopes, shadowed IDs.
+func TrickyShapes() []*Shape {
+	str := func() *Shape { return &Shape{Kind: KString} }
+	ref := func(id string) *Shape { return &Shape{Kind: KRef, RefID: id} }
+	obj := func(id string, props ...*Prop) *Shape { return &Shape{Kind: KObject, ID: id, Props: props} }
+	p := func(name string, t *Shape) *Prop { return &Prop{Name: name, T: t} }
+	scope := func(root string, objs ...*Shape) *Shape { return &Shape{Kind: KScope, Root: root, Objects: objs} }
+	return []*Shape{
+		// self reference through the only property
+		scope("A", obj("A", p("a", ref("A")))),
+		// rho: Root -> Node -> Node -> ...
+		scope("Root", obj("Root", p("n", ref("Node"))), obj("Node", p("next", ref("Node")))),
+		// longer rho
+		scope("R", obj("R", p("x", ref("S"))), obj("S", p("y", ref("T"))), obj("T", p("z", ref("S")))),
+		// mutual recursion
+		scope("A", obj("A", p("b", ref("B"))), obj("B", p("a", ref("A")))),
+		// cycle through an inline single-property object
+		scope("A", obj("A", p("b", ref("B"))), obj("B", p("c", obj("C", p("a", ref("A")))))),
+		// cycle through a nested scope
+		scope("A", obj("A", p("s", scope("I", obj("I", p("back", ref("I"))))))),
+		// recursion through a list and a map (finite inputs exist at every depth)
+		scope("Tree", obj("Tree", p("value", str()), p("children", &Shape{Kind: KList, Items: ref("Tree")}), p("index", &Shape{Kind: KMap, Keys: str(), Vals: ref("Tree")}))),
+		// recursion through a one-of
+		scope("Expr", obj("Expr", p("e", &Shape{Kind: KOneOfStr, Disc: "_type", Members: []*Member{{KeyS: "lit", T: ref("Lit")}, {KeyS: "neg", T: ref("Expr")}}})), obj("Lit", p("v", &Shape{Kind: KInt}))),
+		// an inner scope shadows an outer object ID
+		scope("Outer", obj("Outer", p("x", ref("Leaf")), p("inner", scope("Inner", obj("Inner", p("y", ref("Leaf"))), obj("Leaf", p("v", &Shape{Kind: KInt}))))), obj("Leaf", p("v", str()))),
+		// two-property recursive object: the shorthand must not apply
+		scope("N", obj("N", p("v", &Shape{Kind: KInt}), p("next", ref("N")))),
+	}
+}
+
+func without(set map[string]bool, name string) map[string]bool {
+	out := map[string]bool{}
+	for k, v := range set {
+		if k != name {
+			out[k] = v
+		}
+	}
+	return out
+}
+
+func isEmptyRaw(v any) bool {
+	switch x := v.(type) {
+	case int64:
+		return x == 0
+	case float64:
+		return x == 0
+	case string:
+		return x == ""
+	case bool:
+		return !x
+	case []any:
+		return len(x) == 0
+	case map[any]any:
+		return len(x) == 0
+	case map[string]any:
+		return len(x) == 0
+	case nil:
+		return true
+	}
+	return false
+}
+
+// HasEmptyDef reports whether any property below s is marked treat-empty-as-default.
+func (s *Shape) HasEmptyDef() bool {
+	found := false
+	s.Walk(func(x *Shape) {
+		for _, p := range x.Props {
+			if p.EmptyDef {
+				found = true
+			}
+		}
+	})
+	return found
+}
